@@ -547,6 +547,37 @@ def build():
                           "same_settings_as_the_parallel_object": SAME_SETTINGS,
                           "old_pool_terminated": "implies(old(self._pool) is not None, n_events('pool.terminate') == 1)"},
         ))
+    # ---- submit / retrieve_result_callback of the pool-based backends: a task runs inside the traceback-capturing wrapper, which turns ANY
+    # exception of the task - also a BaseException such as SystemExit or KeyboardInterrupt, which would otherwise kill the pool's worker and
+    # leave the call waiting for ever - into a value the completion callback receives (contract of _TracebackCapturingWrapper.__call__)
+    def apply_async(interp, recv, args, kwargs):
+        interp.ctx.events.append(("apply_async", args[0], kwargs.get("callback"), kwargs.get("error_callback")))
+        return Opaque("asyncresult", None)
+
+    p.models["pool.apply_async"] = apply_async
+    p.models["new:_TracebackCapturingWrapper"] = lambda i, a, k: Opaque("tbwrapper", None, func=a[0])
+    p.models["ThreadingBackend._get_pool"] = lambda i, r, a, k: r.fields["_pool"]
+    p.models["MultiprocessingBackend._get_pool"] = lambda i, r, a, k: r.fields["_pool"]
+
+    def unwrap_stub(interp, args, kwargs):
+        interp.ctx.events.append(("unwrap", args[0]))
+        return Opaque("unwrapped", None)
+
+    for bcls in ("ThreadingBackend", "MultiprocessingBackend"):
+        p.add(Contract(
+            PB, bcls + ".submit", props=["C04", "C01"],
+            params=dict(self=ObjOf(bcls, _pool=OpaqueOf("pool")), func=OpaqueOf("batchfn"), callback=Opt(OpaqueOf("cb"))),
+            ensures={"returns_the_pools_handle": "is_tag(result, 'asyncresult')"},
+            ensures_body={"the_task_runs_inside_the_exception_capturing_wrapper": "n_events('apply_async') == 1 and is_tag(ev_named('apply_async')[0][1], 'tbwrapper') and ev_named('apply_async')[0][1].func is func",
+                          "completion_callback_fires_on_success_and_on_error": "ev_named('apply_async')[0][2] is callback and ev_named('apply_async')[0][3] is callback"},
+        ))
+        p.add(Contract(
+            PB, bcls + ".retrieve_result_callback", props=["C04", "C01"],
+            globals={"_retrieve_traceback_capturing_wrapped_call": lambda interp: _Fn(unwrap_stub)},
+            params=dict(self=ObjOf(bcls, _pool=OpaqueOf("pool")), result=OpaqueOf("poolresult")),
+            ensures={"what_the_wrapper_captured_is_unwrapped": "is_tag(result, 'unwrapped')"},
+            ensures_body={"unwrapped_once_untouched": "n_events('unwrap') == 1 and is_tag(ev_named('unwrap')[0][1], 'poolresult')"},
+        ))
     p.add(Contract(
         PB, "LokyBackend.abort_everything", props=["C04"],
         params=dict(self=ObjOf("LokyBackend", _workers=OpaqueOf("executor"), parallel=par_obj), ensure_ready=OneOf(True, False)),
